@@ -488,3 +488,94 @@ func EFXReadOnlyTargets(c *Ctx, cfg string, an *efx.Analyzer) {
 		roCheckP(c, p, an, fn, "EFX-RO", allow, t.AllowPaths)
 	}
 }
+
+// EFXAlias: EFX-ALIAS over every mutator that takes operands of the
+// receiver's kind: under each scenario "operand k is the receiver" (and all
+// operands at once) no operand data may be read after the receiver has been
+// written (context-sensitively through the callees that receive aliased
+// arguments).
+func EFXAlias(c *Ctx, cfg string, an *efx.Analyzer) {
+	p := c.Prog(cfg)
+	if p == nil {
+		return
+	}
+	for _, it := range c.implTypes(p) {
+		if it.Kind == "xof" {
+			continue
+		}
+		muts := pointMutators
+		if it.Kind == "scalar" {
+			muts = scalarMutators
+		}
+		for _, m := range muts {
+			fn := p.Method(it.Named, m)
+			if fn == nil || len(fn.Blocks) == 0 || fn.Synthetic != "" || !hasReturn(fn) {
+				continue
+			}
+			var ops []int
+			for i, prm := range fn.Params {
+				if i == 0 {
+					continue
+				}
+				// only operands whose dynamic type can be the receiver's: points for points, scalars for scalars
+				ts := types.TypeString(prm.Type(), nil)
+				if it.Kind == "point" && ts == core.ModPath+".Point" || it.Kind == "scalar" && ts == core.ModPath+".Scalar" {
+					ops = append(ops, i)
+				}
+			}
+			if len(ops) == 0 {
+				continue
+			}
+			name := shortFn(fn)
+			var scenarios [][]int
+			for _, k := range ops {
+				scenarios = append(scenarios, []int{k})
+			}
+			if len(ops) > 1 {
+				scenarios = append(scenarios, ops)
+			}
+			for _, sc := range scenarios {
+				ctx := efx.AliasCtx{0: {"A"}}
+				var lbl []string
+				for _, k := range sc {
+					ctx[k] = []efx.Path{"A"}
+					lbl = append(lbl, fn.Params[k].Name())
+				}
+				site := "receiver is also operand " + strings.Join(lbl, "+")
+				hz := an.CheckAlias(fn, ctx)
+				if len(hz) == 0 {
+					c.R.Ok("EFX-ALIAS", name, site, p.FnPos(fn), "no operand region is read after the receiver is written", true)
+					continue
+				}
+				var parts []string
+				for i, h := range hz {
+					if i >= 3 {
+						parts = append(parts, fmt.Sprintf("… %d more", len(hz)-3))
+						break
+					}
+					parts = append(parts, fmt.Sprintf("%s reads %s at %s after it was written at %s%s", core.Short(h.Fn.String()), h.Region,
+						p.Pos(h.ReadPos), p.Pos(h.WritePos), chainStr(h.Chain)))
+				}
+				c.R.Bad("EFX-ALIAS", name, site, p.Pos(hz[0].ReadPos), strings.Join(parts, "; "))
+			}
+		}
+	}
+	var leaves []string
+	for l := range an.AliasSafeLeaves {
+		leaves = append(leaves, l)
+	}
+	sort.Strings(leaves)
+	c.R.Extra["alias_safe_leaves_assumed"] = leaves
+}
+
+func chainStr(ch []string) string {
+	if len(ch) == 0 {
+		return ""
+	}
+	return " (via " + strings.Join(ch, " → ") + ")"
+}
+
+func isKyberValue(t types.Type) bool {
+	s := types.TypeString(t, nil)
+	return s == core.ModPath+".Point" || s == core.ModPath+".Scalar"
+}
